@@ -124,6 +124,18 @@ def Server.cancelComp (s : Server) (ci : Nat) (conn : Option Nat) : HOut Server 
       else s.cancelCore ci
   | none => s.cancelCore ci
 
+/-- `for task_id in tasks: self.handle_cancel_comp_task(task_id)` (stops at the first exception) -/
+def Server.cancelAll : HOut Server → List Nat → HOut Server
+  | acc, [] => acc
+  | acc, ci :: rest =>
+    if acc.note != "ok" then acc
+    else
+      Server.cancelAll
+        { st := (Server.cancelComp acc.st ci none).st,
+          queued := acc.queued ++ (Server.cancelComp acc.st ci none).queued,
+          direct := acc.direct ++ (Server.cancelComp acc.st ci none).direct,
+          note := (Server.cancelComp acc.st ci none).note } rest
+
 /-- `DetachedServer.handle_disconnect(conn)` for client `j`; `ord` = the iteration order of
     the set `self.clients[conn]` observed on the real run -/
 def Server.disconnect (s : Server) (j : Nat) (ord : List Nat) : HOut Server :=
@@ -141,12 +153,7 @@ def Server.disconnect (s : Server) (j : Nat) (ord : List Nat) : HOut Server :=
         { st := s, note := "violated disconnect-order" }
       else
         let s1 := { s0 with clients := assocErase s0.clients j }
-        let step := fun (acc : HOut Server) (ci : Nat) =>
-          if acc.note != "ok" then acc
-          else
-            let r := Server.cancelComp acc.st ci none
-            { r with queued := acc.queued ++ r.queued, direct := acc.direct ++ r.direct }
-        let r := ord.foldl step { st := s1, direct := direct }
+        let r := Server.cancelAll { st := s1, direct := direct } ord
         if r.note != "ok" then r
         else
           let gone := r.st.tasks.filter (fun t => t.2.2 == j)
@@ -427,6 +434,24 @@ def flushServer (s : Server) (queued : Out) : Out :=
 def empIndexOf (b : Boss) (src : NodeId) : Option Nat :=
   (enumFromN 0 b.emps).findSome? (fun ie => if ie.2.node = src then some ie.1 else none)
 
+/-- `DetachedServer.handle_message` (dispatch on the direction the message came from) -/
+def Server.handle (s : Server) (src : NodeId) (m : Msg) (asg ord : List Nat) : HOut Server :=
+  match src with
+  | .client j =>
+    if s.closed.contains j then { st := s, note := "dropped" }
+    else s.fromClient j m asg ord
+  | _ =>
+    match empIndexOf s.boss src with
+    | none => { st := s, note := "dropped" }
+    | some ei => s.fromBelow ei m asg
+
+/-- `Manager.handle_message` -/
+def Manager.handle (g : Manager) (src : NodeId) (m : Msg) (asg : List Nat) : HOut Manager :=
+  if src = .server then g.fromAbove m asg
+  else match empIndexOf g.boss src with
+    | none => { st := g, note := "dropped" }
+    | some ei => g.fromBelow ei m asg
+
 /-- `deliver src dst` -/
 def Net.deliver (n : Net) (src dst : NodeId) (asg ord : List Nat) (died : Bool) : TrOut :=
   match chanGet n.chans (src, dst) with
@@ -451,14 +476,7 @@ def Net.deliver (n : Net) (src dst : NodeId) (asg ord : List Nat) (died : Bool) 
       let s := n.server
       if !s.running then { net := n, note := "dropped" }
       else
-        let r : HOut Server := match src with
-          | .client j =>
-            if s.closed.contains j then { st := s, note := "dropped" }
-            else s.fromClient j m asg ord
-          | _ =>
-            match empIndexOf s.boss src with
-            | none => { st := s, note := "dropped" }
-            | some ei => s.fromBelow ei m asg
+        let r := s.handle src m asg ord
         let o := r.direct ++ flushServer r.st r.queued
         let n1 := { n with server := r.st }
         { net := n1.postAll .server o, emitted := o.map (fun dm => (NodeId.server, dm.1, dm.2)),
@@ -469,11 +487,7 @@ def Net.deliver (n : Net) (src dst : NodeId) (asg ord : List Nat) (died : Bool) 
       | some g =>
         if !g.running then { net := n, note := "dropped" }
         else
-          let r : HOut Manager :=
-            if src = .server then g.fromAbove m asg
-            else match empIndexOf g.boss src with
-              | none => { st := g, note := "dropped" }
-              | some ei => g.fromBelow ei m asg
+          let r := g.handle src m asg
           let o := r.direct ++ (if r.st.running then r.queued else [])
           let n1 := { n with mgrs := setAt n.mgrs i r.st }
           { net := n1.postAll (.mgr i) o, emitted := o.map (fun dm => (NodeId.mgr i, dm.1, dm.2)),
